@@ -12,6 +12,7 @@ RULES = {
     "R-06.1": "each rich comparison of Name returns fullcompare(other)[1] <op> 0 with the operator its name says; foreign operands give NotImplemented / False / True",
     "R-06.2": "fullcompare folds BOTH labels with the same normaliser, __hash__ folds every octet with it, canonicalize() uses it",
     "R-06.3": "fullcompare: mirrored </> arms, relative-before-absolute, right-to-left scan, length tie-break, relation from the length difference; is_subdomain/is_superdomain accept exactly {SUB|SUPER}DOMAIN and EQUAL",
+    "R-06.5": "RFC 4471 octet stepping is monotone under the canonical fold: the octets special-cased by `octet == CONST` in the increment branch of _absolute_successor cover every octet o where fold(o+1) <= fold(o) and send it to a value that folds strictly higher; likewise for the decrement in _absolute_predecessor (fold = ASCII lower-casing, computed by the checker from RFC 4034 6.1, not by running the code)",
     "R-06.4": "relativize strips exactly len(origin) labels and only under is_subdomain(origin); derelativize appends only to relative names; choose_relativity dispatches on origin/relativize",
 }
 OPS = {"__eq__": "==", "__ne__": "!=", "__lt__": "<", "__le__": "<=", "__ge__": ">=", "__gt__": ">"}
@@ -233,6 +234,57 @@ def run(model, rep, tier):
               "parent() changed", stmt="parent")
     gi = model.func("dns.name.Name.__getitem__")
     rep.check("return self.labels[index]" in src(gi.node), "R-06.4", gi.qualname, where(gi, gi.node), "slicing a name slices its labels", "Name.__getitem__ no longer indexes labels", stmt="getitem")
+    # ---------------------------------------------------------------- R-06.5
+    def fold(o):
+        return o + 32 if 0x41 <= o <= 0x5A else o
+    nmod = model.module("dns.name")
+    for qn, delta, what in (("dns.name._absolute_successor", +1, "increment"), ("dns.name._absolute_predecessor", -1, "decrement")):
+        f = model.func(qn)
+        step = [n for n in ast.walk(f.node) if isinstance(n, ast.AugAssign) and isinstance(n.target, ast.Name) and isinstance(n.value, ast.Constant) and n.value.value == 1
+                and isinstance(n.op, ast.Add if delta > 0 else ast.Sub)]
+        chain = None
+        for n in ast.walk(f.node):
+            if isinstance(n, ast.If):
+                # the if/elif chain whose final else is the plain +/-1 step
+                arms, cur = [], n
+                while True:
+                    arms.append(cur)
+                    if len(cur.orelse) == 1 and isinstance(cur.orelse[0], ast.If):
+                        cur = cur.orelse[0]
+                    else:
+                        break
+                if step and any(x is step[0] for x in cur.orelse) and all(len(a.body) == 1 and isinstance(a.body[0], ast.Assign) for a in arms):
+                    chain = arms
+        if not step or chain is None:
+            rep.blind("R-06.5", qn, where(f, f.node), f"the {what} step (`octet {'+' if delta > 0 else '-'}= 1` as the final else of an if/elif chain of `octet == CONST` special cases) was not recognised", stmt="octet-step")
+            continue
+        var = step[0].target.id
+        special = {}
+        okk = True
+        for a in chain:
+            at = atoms(normalise_compare(a.test))
+            try:
+                if len(at) != 1 or at[0][0] != var or at[0][1] != "==":
+                    raise AnalysisError("shape")
+                k = model.const(nmod, ast.parse(at[0][2], mode="eval").body)
+                v = model.const(nmod, a.body[0].value)
+                if not (src(a.body[0].targets[0]) == var and isinstance(k, int) and isinstance(v, int)):
+                    raise AnalysisError("shape")
+                special[k] = v
+            except AnalysisError:
+                okk = False
+        if not okk:
+            rep.blind("R-06.5", qn, where(f, chain[0]), "a special case of the octet step is not of the form `if octet == CONST: octet = CONST`", stmt="octet-step")
+            continue
+        rng = range(0, 255) if delta > 0 else range(1, 256)
+        need = sorted(o for o in rng if (fold(o + delta) <= fold(o) if delta > 0 else fold(o + delta) >= fold(o)))
+        missing = [o for o in need if o not in special]
+        wrong = [o for o, v in special.items() if not (fold(v) > fold(o) if delta > 0 else fold(v) < fold(o))]
+        rep.check(not missing and not wrong, "R-06.5", qn, where(f, chain[0]),
+                  f"special cases {{{', '.join(repr(chr(o)) + '->' + repr(chr(v)) for o, v in sorted(special.items()))}}} cover the octets {[chr(o) for o in need]} where a plain {what} is not monotone under case folding",
+                  f"the plain {what} is not monotone under the canonical (case-folded) order at {[chr(o) for o in missing]} and these octets are not special-cased"
+                  + (f"; special cases {[chr(o) for o in wrong]} map to a value that does not sort strictly {'after' if delta > 0 else 'before'}" if wrong else "")
+                  + f": the {'successor' if delta > 0 else 'predecessor'} of a name ending in such an octet sorts on the wrong side of the name", stmt="octet-step")
     rep.assume("bytes comparison and bytes.lower() are trusted (ASCII-only folding, total order on octet strings)")
     rep.meta["explanation"] = (
         "Names are touched only through comparisons, a finite structure: the operator table, the single normaliser shared by compare/hash/canonical forms, "
@@ -241,6 +293,10 @@ def run(model, rep, tier):
 
 
 WITNESSES = [
+    {"id": "c06-successor-z-not-special", "rule": "R-06.5", "file": "dns/name.py", "expect": "fires",
+     "old": "            elif octet == _UPPER_Z_VALUE:\n                # \"Z\" compares as \"z\", so the next value in canonical order is \"{\";\n                # \"[\" would sort before the name.\n                octet = _LEFT_CURLY_BRACKET_VALUE\n", "new": ""},
+    {"id": "c06-predecessor-bracket-not-special", "rule": "R-06.5", "file": "dns/name.py", "expect": "fires",
+     "old": "        if octet == _LEFT_SQUARE_BRACKET_VALUE:\n            octet = _AT_SIGN_VALUE\n        else:\n            octet -= 1", "new": "        octet -= 1"},
     {"id": "c06-fullcompare-folds-upper", "rule": "R-06.2", "file": "dns/name.py", "expect": "fires",
      "old": "            label1 = self.labels[l1].lower()\n            label2 = other.labels[l2].lower()", "new": "            label1 = self.labels[l1].upper()\n            label2 = other.labels[l2].upper()"},
     {"id": "c06-le-uses-lt", "rule": "R-06.1", "file": "dns/name.py", "expect": "fires",
